@@ -60,6 +60,33 @@ func isIn(xs []*xObj, o *xObj) bool {
 	return false
 }
 
+// c38AddedQual says what kind of object was deleted when something new appears afterwards: the recorded mechanism
+// (a table with a connection from its own column to itself) must not hide other ways of leaving strays behind.
+func c38AddedQual(g *d2graph.Graph, key string) string {
+	if g == nil || isEdgeKey(key) {
+		return ""
+	}
+	var target *d2graph.Object
+	for _, o := range g.Objects {
+		if strings.EqualFold(o.AbsID(), key) {
+			target = o
+		}
+	}
+	if target == nil {
+		return ""
+	}
+	sh := strings.ToLower(target.Shape.Value)
+	if sh != "sql_table" && sh != "class" {
+		return ""
+	}
+	for _, e := range g.Edges {
+		if e.Src != nil && e.Dst != nil && (e.Src == target || e.Src.Parent == target) && (e.Dst == target || e.Dst.Parent == target) {
+			return ":deleted-" + sh + "-has-a-connection-to-itself"
+		}
+	}
+	return ":deleted-" + sh + "-has-a-connection-through-a-member"
+}
+
 // expectDelete builds the expectation of Delete for object / connection keys ("" kind = not applicable).
 func expectDelete(r *Rec, g0 *d2graph.Graph, pre *PBoard) (x *expectation, kind string) {
 	key := r.Op.Key
@@ -164,7 +191,11 @@ func c38(r *Rec) eng.Res {
 		return eng.OK("n/a:key-names-nothing", false)
 	}
 	if m := x.match(post); m != nil {
-		return bad("delete-"+kind+origin+":"+m.what, m.detail)
+		what := m.what
+		if what == "object-added" {
+			what += c38AddedQual(g0, r.Op.Key)
+		}
+		return bad("delete-"+kind+origin+":"+what, m.detail)
 	}
 	if _, m := x.matchEdges(post); m != nil {
 		return bad("delete-"+kind+origin+":"+m.what, m.detail)
